@@ -54,19 +54,19 @@ fn replay_case(case: &Value) -> Option<(bool, String)> {
         "c02" => props::c02::replay(case),
         "c03" | "c03alias" | "c03linear" => props::c03::replay(case),
         "c10" => props::c03::replay_c10(case),
-        "c04" => props::c04::replay(case),
-        "c05" => props::c04::replay_c05(case),
-        "c06" => props::c06::replay(case),
+        "c04" | "c04echo" => props::c04::replay(case),
+        "c05" | "c05echo" => props::c04::replay_c05(case),
+        "c06" | "c06echo" => props::c06::replay(case),
         "c18" => props::c18::replay(case),
         "c19" => props::c19::replay(case),
-        "c17" | "c17hsl" => props::c17::replay(case),
+        "c17" | "c17hsl" | "c17echo" => props::c17::replay(case),
         "c16yuv" | "c16curve" | "c16prim" | "c16xyb" | "c16hsl" | "c16mixed" => props::c16::replay(case),
         "c14" | "c14labels" => props::c14::replay(case),
         "c15res" | "c15rgb" | "c15content" | "c15contentrgb" => props::c15::replay(case),
         "c12" | "c12float" => props::c12::replay(case),
         "c07geom" | "c07enc" | "c07curve" | "c07special" => props::c07::replay(case),
         "c13cube" | "c13strat" | "c13stratcase" | "c13unit" => props::c13::replay(case),
-        "c11dec" | "c11float" | "c11enc" | "c11hist" => props::c11::replay(case),
+        "c11dec" | "c11float" | "c11enc" | "c11hist" | "c11histproc" | "c11decseq" => props::c11::replay(case),
         "c09" => props::c09::replay(case),
         "c20exact" => props::c20::replay(case),
         _ => return None,
@@ -159,6 +159,13 @@ fn main() {
             let hooks: Vec<_> = acc.viols.values().map(|v| format!("{} :: {}", v.key, v.detail)).collect();
             println!("MIRIBOX states={} transitions={} hook_violations={:?} buckets={:?}", acc.states, acc.transitions, hooks, acc.buckets);
             std::process::exit(if hooks.is_empty() { 0 } else { 1 });
+        }
+        "histrun" => {
+            props::c11::histrun_main(&args[2]);
+        }
+        "histwalk" => {
+            let tier = if args[2] == "quick" { Tier::Quick } else { Tier::Thorough };
+            props::c11::histwalk_main(tier, &args[3]);
         }
         "xdump" => {
             props::c20::xdump(&args[2]);
